@@ -30,7 +30,7 @@ def check(run):
     recs = []
     if "harness" not in fails:
         n = 2500 if run.tier == "thorough" else 400
-        for sub, args in (("directed", []), ("gen", [n])):
+        for sub, args in (("directed", cc.directed_args(run.tier)), ("gen", [n])):
             rc, rs, err = cc.harness_records(sub, args, run.seed)
             if rc != 0:
                 broken.append("harness cql %s failed rc=%s: %s" % (sub, rc, err))
